@@ -1,5 +1,10 @@
 package main
 
+import (
+	"go/ast"
+	"go/constant"
+)
+
 func init() {
 	extractors["C03"] = extractConn("C03")
 	extractors["C04"] = extractConn("C04")
@@ -21,10 +26,61 @@ func extractConn(id string) extractor {
 		o.nat("stateRunning", p.ConstU(o, "StateRunning"), "state.go const StateRunning")
 		o.nat("stateShutdown", p.ConstU(o, "StateShutdown"), "state.go const StateShutdown")
 		o.nat("stateTerminated", p.ConstU(o, "StateTerminated"), "state.go const StateTerminated")
+		if id == "C04" {
+			serverChanCaps(repo, o)
+		}
 		for _, f := range connSkeletonFiles {
 			if err := writeSkeleton(repo, f, skeletonDir()); err != nil {
 				o.problem("skeleton of %s: %v", f, err)
 			}
 		}
 	}
+}
+
+// serverChanCaps: the capacities of the hand-off queue and of the shared error channel, from the composite literal
+// of NewTcpServer (`backlog: make(chan fatchoy.Endpoint, 128)`, `errors: make(chan error, 16)`).
+func serverChanCaps(repo string, o *Out) {
+	q, err := load(repo, "qnet")
+	if err != nil {
+		o.problem("load qnet: %v", err)
+		return
+	}
+	fd := q.Func("", "NewTcpServer")
+	caps := map[string]uint64{}
+	if fd == nil {
+		o.problem("func NewTcpServer not found")
+	} else {
+		ast.Inspect(fd, func(n ast.Node) bool {
+			kv, ok := n.(*ast.KeyValueExpr)
+			if !ok {
+				return true
+			}
+			key, ok := kv.Key.(*ast.Ident)
+			call, ok2 := kv.Value.(*ast.CallExpr)
+			if !ok || !ok2 || q.Src(call.Fun) != "make" || len(call.Args) < 1 {
+				return true
+			}
+			if _, isChan := call.Args[0].(*ast.ChanType); !isChan {
+				return true
+			}
+			c := uint64(0) // unbuffered
+			if len(call.Args) >= 2 {
+				v, ok := q.ConstOf(call.Args[1])
+				if !ok {
+					o.problem("NewTcpServer: capacity of %s is not a constant", key.Name)
+					return true
+				}
+				c, _ = constant.Uint64Val(constant.ToInt(v))
+			}
+			caps[key.Name] = c
+			return true
+		})
+	}
+	for _, k := range []string{"backlog", "errors"} {
+		if _, ok := caps[k]; !ok {
+			o.problem("NewTcpServer: no `%s: make(chan ..., N)` in the composite literal", k)
+		}
+	}
+	o.nat("serverBacklogCap", caps["backlog"], "qnet/tcp_server.go NewTcpServer: capacity of the hand-off queue `backlog`")
+	o.nat("serverErrorsCap", caps["errors"], "qnet/tcp_server.go NewTcpServer: capacity of the shared error channel `errors`")
 }
